@@ -78,6 +78,7 @@ type Scenario struct {
 	C12    *C12Payload       `json:"c12,omitempty"`
 	C09    *C09Payload       `json:"c09,omitempty"`
 	C04    *C04Payload       `json:"c04,omitempty"`
+	C05    *C05Payload       `json:"c05,omitempty"`
 }
 
 // ---- outcome ---------------------------------------------------------------
